@@ -636,6 +636,21 @@ func (h *httpServerHandler) handleGet(ctx context.Context, w http.ResponseWriter
 	conn.writeLock.Lock()
 	h.getSSEConnections[session.GetID()] = conn
 	h.getSSEConnectionsLock.Unlock()
+	// The session may have been deleted since it was looked up; the DELETE then found no
+	// connection to close. Now that the connection is registered, either that DELETE has
+	// finished (seen here) or it will find and close this connection.
+	if _, stillThere := h.sessionManager.getSession(sessionID); !stillThere {
+		conn.closed = true
+		conn.writeLock.Unlock()
+		h.getSSEConnectionsLock.Lock()
+		if current, ok := h.getSSEConnections[session.GetID()]; ok && current == conn {
+			delete(h.getSSEConnections, session.GetID())
+		}
+		h.getSSEConnectionsLock.Unlock()
+		w.Header().Del(httputil.SessionIDHeader)
+		http.Error(w, "Session not found", http.StatusNotFound)
+		return
+	}
 	w.WriteHeader(http.StatusOK)
 	flusher.Flush()
 	conn.writeLock.Unlock()
